@@ -13,7 +13,8 @@ import subprocess
 import sys
 
 from common import *  # noqa
-from values import Enum as _En, Opaque
+from values import Enum as _En, Opaque, is_z3
+from tmpl import JAcc
 
 VERIF = os.environ.get("NREL_ALTRIOS_VERIF_DIR", "/verif")
 NAN = float("nan")
@@ -147,7 +148,7 @@ def update_case(name, backward=True):
 
     def scheduled(c):
         vals = [g(c, i, "time_sched") for i in range(n)]
-        return all(not isinstance(v, Opaque) for v in vals)
+        return all(not isinstance(v, Opaque) and not (isinstance(v, float) and v != v) for v in vals)
 
     def primary_equation(c):
         conds = []
@@ -230,4 +231,148 @@ def m_cases(tier):
     for nme in names:
         cs.append(update_case(nme, backward=False))
         cs.append(update_case(nme, backward=True))
+    return cs
+
+
+# ---------------------------------------------------------------- movement -> events (update_est_times_add), fully symbolic
+def est_add_case(nmov, nlp, kin=True):
+    """update_est_times_add on a symbolic movement of nmov states over a path of nlp link points (link k+1 starts at link point k)"""
+    from traincommon import link_points_tmpl
+    lps = link_points_tmpl(nlp)
+    for k in range(nlp):
+        lps[k]["link_idx"] = k + 1
+    mov = [{"time": Sym(f"t{i}"), "offset": Sym(f"x{i}"), "speed": Sym(f"v{i}")} for i in range(nmov)]
+    DT = 1  # concrete step size (the train simulations' default): keeps acceleration and the trapezoid rule linear for the solver
+    lp = lambda S, k: (0 if k == 0 else S[f"lp{k}"])
+
+    def assume(S):
+        d = [("train length > 0", S["len"] > 0), ("x0 >= 0", S["x0"] >= 0), ("v0 >= 0", S["v0"] >= 0)]
+        for i in range(1, nmov):
+            d += [(f"t{i} = t{i-1} + {DT} s", S[f"t{i}"] == S[f"t{i-1}"] + DT), (f"v{i} >= 0", S[f"v{i}"] >= 0), (f"the train moves in step {i}", S[f"v{i}"] + S[f"v{i-1}"] > 0),
+                  (f"x{i} = x{i-1} + dt*(v{i}+v{i-1})/2 (constant acceleration within a step)", S[f"x{i}"] == S[f"x{i-1}"] + (S[f"t{i}"] - S[f"t{i-1}"]) * (S[f"v{i}"] + S[f"v{i-1}"]) / 2)]
+        for k in range(1, nlp):
+            d.append((f"link points strictly increasing: lp{k}", S[f"lp{k}"] > lp(S, k - 1)))
+        d.append(("the front stays before the last link point (the path always extends beyond the movement)", S[f"x{nmov-1}"] < S[f"lp{nlp-1}"]))
+        # a train that comes to rest exactly on an event position makes the code evaluate 0 / (0 + 0) (NaN time): measure-zero coincidence,
+        # excluded here and recorded as an observation in DESIGN.md 10.6
+        for i in range(1, nmov):
+            for k in range(1, nlp):
+                d.append((f"not at rest exactly on a boundary: state {i}, link point {k}", z3.Not(z3.And(S[f"v{i}"] == 0, z3.Or(S[f"x{i}"] == lp(S, k), S[f"x{i}"] == lp(S, k) + S["len"])))))
+        return d
+
+    def events(c):
+        r = c.post
+        n_ = len(r.j) if isinstance(r, JAcc) else r.len()
+        return [r[str(k)] for k in range(n_)]
+
+    def etype(e):
+        le = e["link_event"]
+        return le.j["est_type"] if isinstance(le, JAcc) else le["est_type"].variant()
+
+    def lidx(e):
+        le = e["link_event"]
+        if isinstance(le, JAcc):
+            v = le.j["link_idx"]
+            return v["idx"] if isinstance(v, dict) else int(v)
+        v = le["link_idx"]
+        return ival(v["idx"] if hasattr(v, "v") else v)
+
+    def ordered(c):
+        ev = events(c)
+        conds = []
+        for a, b in zip(ev, ev[1:]):
+            conds += [LE(a["dist_to_next"], b["dist_to_next"])]
+        for e in ev:
+            conds += [GT(e["dist_to_next"], c.S["x0"]), LE(e["dist_to_next"], c.S[f"x{nmov-1}"]), GE(e["speed"], 0)]
+        return AND(*conds) if conds else True
+
+    def times_inside(c):
+        conds = []
+        for e in events(c):
+            conds += [GE(e["time_to_next"], c.S["t0"]), LE(e["time_to_next"], c.S[f"t{nmov-1}"])]
+        return AND(*conds) if conds else True
+
+    def times_ordered(c):
+        ev = events(c)
+        conds = [LE(a["time_to_next"], b["time_to_next"]) for a, b in zip(ev, ev[1:])]
+        return AND(*conds) if conds else True
+
+    def identity(c):
+        """an Arrive of link L sits at L's entry point; a Clear of link L ("train clears entry point to link") one train length after it"""
+        conds = []
+        for e in events(c):
+            L_ = lidx(e)
+            if etype(e) == "Arrive":
+                conds.append(EQ(e["dist_to_next"], lp(c.S, L_ - 1)))
+            elif etype(e) == "Clear":
+                conds.append(EQ(e["dist_to_next"], lp(c.S, L_ - 1) + c.S["len"]))
+            else:
+                conds.append(False)
+        return AND(*conds) if conds else True
+
+    def complete(c):
+        """every boundary the front / the tail crosses during the movement produces its event, and nothing else does"""
+        ev = events(c)
+        S = c.S
+        x0, xl = S["x0"], S[f"x{nmov-1}"]
+        conds = []
+        for k in range(1, nlp):
+            crossed_front = AND(XLT(x0, lp(S, k)), XLE(lp(S, k), xl))
+            has = any(etype(e) == "Arrive" and lidx(e) == k + 1 for e in ev)
+            conds.append(IMP(crossed_front, has))
+            conds.append(IMP(NOT(crossed_front), not has))
+            # the tail passes link point k (clearing the entry point of link k+1) when the front is at lp_k + len
+            crossed_back = AND(XLT(x0, lp(S, k) + S["len"]), XLE(lp(S, k) + S["len"], xl))
+            hasc = any(etype(e) == "Clear" and lidx(e) == k + 1 for e in ev)
+            conds.append(IMP(crossed_back, hasc))
+            conds.append(IMP(NOT(crossed_back), not hasc))
+        return AND(*conds)
+
+    def entered_before_cleared(c):
+        ev = events(c)
+        conds = []
+        for i, e in enumerate(ev):
+            if etype(e) == "Clear":
+                for j, a in enumerate(ev):
+                    if etype(a) == "Arrive" and lidx(a) == lidx(e):
+                        conds.append(j < i)
+        return all(conds)
+
+    def kinematics(c):
+        """the event lies on the constant-acceleration trajectory of its step: position and speed agree with the trapezoid rule from the step's start"""
+        S = c.S
+        conds = []
+        for e in events(c):
+            d_, t_, v_ = e["dist_to_next"], e["time_to_next"], e["speed"]
+            alts = []
+            for i in range(1, nmov):
+                inside = AND(XLT(S[f"x{i-1}"], d_), XLE(d_, S[f"x{i}"]))
+                conds.append(IMP(inside, AND(EQ(d_ - S[f"x{i-1}"], (t_ - S[f"t{i-1}"]) * (v_ + S[f"v{i-1}"]) / 2), GE(t_, S[f"t{i-1}"]), LE(t_, S[f"t{i}"]))))
+        return AND(*conds) if conds else True
+
+    claims = [
+        Claim("events ordered in distance, inside the movement, speeds non-negative", ordered, role="events_ordered"),
+        Claim("event times inside the movement's time span", times_inside, role="event_times_inside"),
+        Claim("event times non-decreasing along the list", times_ordered, role="event_times_ordered"),
+        Claim("an Arrive sits at its link's entry point, a Clear one train length after it", identity, role="event_identity"),
+        Claim("every boundary crossed by the front / the tail yields exactly its event", complete, role="events_complete"),
+        Claim("a link is cleared only after it was entered (when both fall into the movement)", entered_before_cleared, role="entered_before_cleared"),
+        Claim("never panics (indices stay inside the path)", None, when="nopanic", role="no_panic"),
+    ]
+    if kin:
+        claims.insert(5, Claim("event time and speed lie on the step's constant-acceleration trajectory", kinematics, role="event_kinematics"))
+    c = Case(f"est_times_add_m{nmov}_lp{nlp}", "C15", "Vec<EstTime>", [], [Call("update_est_times_add", [("&Vec<SimpleState>", mov), ("&Vec<LinkPoint>", lps), ("Quantity", Sym("len"))])],
+             assume, claims, bounds={"movement states": nmov, "link points": nlp, "train length": "symbolic > 0", "movement": "symbolic, constant acceleration within a step", "step size": "1 s (concrete)"},
+             max_paths=20000, loop_bound=60, timeout_ms=60000, check_side=False)
+    return c
+
+
+_upd_cases = m_cases
+
+
+def m_cases(tier):
+    cs = _upd_cases(tier)
+    # one step of movement (two states): the per-step loop body is what the function consists of; three states (two steps) and a
+    # fourth link point were tried and are out of reach (10-25 minutes of path exploration, z3 timeouts on the event-time claims)
+    cs += [est_add_case(2, 3)]
     return cs
